@@ -1,5 +1,6 @@
 import SqlgrepModel.Lemmas.ClimbCorrect
 import SqlgrepModel.Generated.PrecTable
+import SqlgrepModel.Lemmas.ParseLoc
 /-
 From `climb_correct` to the statements of property C13: explicit-fuel form, the fully parenthesised printer,
 redundant parentheses, stopping tokens, and the comparison of the generated tables with the reference grammar.
@@ -75,6 +76,41 @@ theorem generated_eq_spec : Generated.precTables = specTables := by decide
 theorem spec_wf : specTables.WF := by decide
 
 theorem generated_wf : Generated.precTables.WF := by decide
+
+/-! ### token vectors with arbitrary locations -/
+
+/-- the state whose token vector is `ts` followed by the tokens of `s` -/
+def mkSt (ts : List PTok) (s : PSt) : PSt := ts.foldr (fun t s => ⟨t, s.cur :: s.rest⟩) s
+
+theorem strip_mkSt (ts : List PTok) (s : PSt) : (mkSt ts s).strip = pushAll (ts.map (·.tok)) s.strip := by
+  induction ts with
+  | nil => rfl
+  | cons t ts ih =>
+    simp only [mkSt, List.foldr_cons, List.map_cons, pushAll_cons] at ih ⊢
+    rw [← ih]
+    rfl
+
+theorem stops_strip {m : Int} {s : PSt} (h : Stops T m s) : Stops T m s.strip := by
+  obtain ⟨h1, tp, h2, h3⟩ := h
+  refine ⟨h1, tp, ?_, h3⟩
+  rw [tokenPrecedence_strip, h2]; rfl
+
+/-- `climb_correct` at the top level for token vectors carrying arbitrary locations: the tree is the expression's
+tree up to locations, and what is left is the vector that followed the expression -/
+theorem parse_located (hT : T.WF) (e : RExpr) (hwf : RExpr.WF T e) (ts : List PTok) (rest : PSt)
+    (hts : ts.map (·.tok) = e.pr T 0) (hS : Stops T 0 rest) :
+    ∃ f0, ∀ f, f0 ≤ f → ∃ t s', parseExpr T f (mkSt ts rest) = .ok t s' ∧ t.eraseLoc = e.embed ∧ s'.strip = rest.strip := by
+  obtain ⟨f0, h⟩ := parse_printed hT e hwf rest.strip rfl (stops_strip hS)
+  refine ⟨f0, fun f hf => ?_⟩
+  have := h f hf
+  rw [← hts, ← strip_mkSt, parseExpr_strip] at this
+  cases hp : parseExpr T f (mkSt ts rest) with
+  | ok t s' =>
+    rw [hp] at this
+    simp only [PRes.strip, PRes.ok.injEq] at this
+    exact ⟨t, s', rfl, this.1, this.2⟩
+  | err e s' => rw [hp] at this; simp [PRes.strip] at this
+  | fuel => rw [hp] at this; simp [PRes.strip] at this
 
 /-! ### helpers for the instances of the sentence -/
 
